@@ -1120,17 +1120,40 @@ var curMakes []string
 
 // Method tokenizes dir's <recv>.<method> (read=true for Deserialize-side methods).
 func Method(dir, recv, method string, read bool) []Tok {
+	p, k := findMethod(dir, recv, method, 0)
+	if p == nil {
+		ex.Die("%s: %s.%s not found (also not promoted from an embedded struct)", dir, recv, method)
+	}
+	fd := p.Funcs[k]
+	w := newWalker(p, p.FileOf[k], fd, read)
+	return w.block(fd.Body.List)
+}
+
+// findMethod resolves recv.method, following embedded structs for promoted methods.
+func findMethod(dir, recv, method string, depth int) (*Pkg, string) {
 	p := Load(dir)
 	k := method
 	if recv != "" {
 		k = recv + "." + method
 	}
-	fd, ok := p.Funcs[k]
-	if !ok {
-		ex.Die("%s: %s not found", dir, k)
+	if _, ok := p.Funcs[k]; ok {
+		return p, k
 	}
-	w := newWalker(p, p.FileOf[k], fd, read)
-	return w.block(fd.Body.List)
+	if st, ok := p.Structs[recv]; ok && depth < 4 {
+		for _, f := range st.Fields.List {
+			if len(f.Names) != 0 {
+				continue
+			}
+			d, n, ok := splitQual(strings.TrimPrefix(p.typeExpr(f.Type), "*"))
+			if !ok {
+				continue
+			}
+			if q, key := findMethod(d, n, method, depth+1); q != nil {
+				return q, key
+			}
+		}
+	}
+	return nil, ""
 }
 
 func leanList(ts []Tok) string {
